@@ -18,8 +18,18 @@ LEAN_TARGETS = ['CfVerif.Props.C05']
 PROPS_MODULES = ['CfVerif.Props.C05']
 DRIVER = 'Driver/C05.lean'
 REQUIRED_THEOREMS = ['CfVerif.C05.' + t for t in (
-    'accept_iff', 'add_config_without_link', 'rejected_sends_nothing', 'create_enumerates', 'gen_split_arith', 'gen_add_config',
-    'gen_setup_elements', 'gen_cmds_distinct', 'gen_wire_constants')]
+    # property clauses
+    'accept_iff', 'add_config_without_link', 'rejected_sends_nothing',
+    'create_enumerates', 'start_creates', 'accepted_vars_good', 'dangling_type_byte', 'memory_variable_create_raises',
+    'unpack_inverse', 'types_match_firmware',
+    'ack_effect', 'ack_callbacks', 'flags_follow_acks', 'start_sent_on_create_ack',
+    'readd_stable', 'resolved_stable', 'readd_live_counterexample',
+    'synclogger_fifo', 'sample_queued_once', 'next_takes_head', 'ends_at_disconnect',
+    # Gen obligations
+    'gen_types_single_code', 'gen_id_from_cstring', 'gen_logvar_init', 'gen_conf_init', 'gen_add_variable', 'gen_flag_setters',
+    'gen_cmd_select', 'gen_setup_elements', 'gen_packet_size', 'gen_split_arith', 'gen_create', 'gen_start_stop_delete', 'gen_unpack',
+    'gen_add_config', 'gen_accept_reject', 'gen_log_misc', 'gen_rx_tests', 'gen_rx_effects', 'gen_cmds_distinct', 'gen_wire_constants',
+    'gen_synclogger')]
 TRUSTED = ['harness/corr/c05.py extractor + correspondence + spec twin']
 ASSUMPTIONS = []
 RULE = ''
